@@ -201,7 +201,9 @@ func runC23(c *engine.Ctx) {
 						pushBefore = true
 					}
 				}
-				b = !reachPush && !pushBefore
+				// only the handler that creates the entry may start it out paused
+				creates := len(engine.MapUpdatesOfField([]*ssa.Function{f}, m.table)) > 0
+				b = !reachPush && !pushBefore && creates
 			}
 			c.Decide(r4, key, s.st.Pos(), a || b,
 				"Paused is recorded only once the task has been released after a pause error, or for a request that is never queued",
